@@ -164,8 +164,23 @@ class Run:
         sc = self.sc
         try:
             Q = self.make_sim()
-        except Exhausted:
+        except (Exhausted, Unrepresentable):
             raise
+        except Exception as e:
+            # an exception while the Simulation is being built (e.g. an invalid first inter-arrival sample):
+            # a trace without events whose outcome is the crash
+            if not sc.get("fault"):
+                raise
+            self.outcome = "crash"
+            self.crash = crash_info(e)
+            empty = {"now": 0, "created": 0, "accepted": 0, "completed": 0, "nexit": 0,
+                     "arr": [[INF] * sc["K"] for _ in range(sc["N"])], "and": INF, "ann": 0, "anc": 0,
+                     "nodes": [], "cu": [], "exit": [], "unchecked": False,
+                     "trk": {"a": [], "b": [], "m": [], "inc": 1, "hl": 1, "ht": 0}, "dg": [],
+                     "steps": [], "recs": [], "ev": {"kind": "init", "node": 0, "cls": 0, "date": 0}}
+            self.init = empty
+            self.final = dict(empty, ttd=[], util=[])
+            return self.trace()
         self.Q = Q
         R = Recorder(Q, self.tk, self.names)
         R.recseq = self.recseq
@@ -260,6 +275,7 @@ class Run:
         final["steps"] = R.take_steps()
         final["recs"] = new_records(R)
         final["ev"] = {"kind": "final", "node": 0, "cls": 0, "date": self.tk(Q.current_time)}
+        final["util"] = [util_report(nd) for nd in Q.transitive_nodes]
         name = type(Q.statetracker).__name__
         final["ttd"] = [{"s": rec.enc_tracker_state(name, st), "t": self.tk(v)}
                         for st, v in getattr(Q, "times_to_deadlock", {}).items()]
@@ -273,6 +289,20 @@ class Run:
         t = finalize(t)
         t["cfg"]["scale"] = t["scale"]
         return t
+
+
+def util_report(nd):
+    """the node's reported server_utilisation as an exact fraction un/ud (ud = 0: None / not reported)"""
+    u = getattr(nd, "server_utilisation", None)
+    if u is None:
+        return {"un": 0, "ud": 0}
+    try:
+        fr = Fraction(float(u)).limit_denominator(10 ** 6)
+        if fr.numerator / fr.denominator != float(u):
+            return {"un": -1, "ud": 1}      # not a ratio of small integers: cannot equal attached/present ticks
+        return {"un": fr.numerator, "ud": fr.denominator}
+    except Exception:
+        return {"un": -1, "ud": 1}
 
 
 class StopRun(Exception):
